@@ -468,6 +468,10 @@ class SetSerialization(BaseIterableSerialization):
             unicode:
             The resulting Python code.
         """
+        if not value:
+            # "{}" would be an empty dictionary.
+            return 'set()'
+
         return '{%s}' % ', '.join(
             serialize_to_python(_item)
             for _item in sorted(value)
@@ -751,10 +755,20 @@ class CombinedExpressionSerialization(DeconstructedSerialization):
             unicode:
             The resulting Python code.
         """
+        def _serialize_operand(operand):
+            result = serialize_to_python(operand)
+
+            if isinstance(operand, CombinedExpression):
+                # Keep the grouping of nested expressions. Without this,
+                # (a + b) * c would be written as a + b * c.
+                result = '(%s)' % result
+
+            return result
+
         return '%s %s %s' % (
-            serialize_to_python(value.lhs),
+            _serialize_operand(value.lhs),
             value.connector,
-            serialize_to_python(value.rhs),
+            _serialize_operand(value.rhs),
         )
 
     @classmethod
